@@ -8,5 +8,5 @@ Definition check_j (j : jcase) : verdict :=
   let '(s, d, g) := spec_verdict_j j in
   let '(m1, md1) := model_verdict (fst j) in
   let '(m2, md2) := model_verdict (snd j) in
-  mk_verdict (m1 && m2) s (d && md1 && md2) g.
+  mk_verdict ((m1 || negb md1) && (m2 || negb md2)) s (d && md1 && md2) g.
 Definition run (cs : list jcase) := check_all check_j cs.
